@@ -407,6 +407,8 @@ def _pw_nldfplan(case, rec, rng):
     rho = np.ascontiguousarray(rho[:, keep])
     nvj = plan.nldf_settings.num_feat_param_sets
     rt = plan.get_rho_tuple(rho)
+    before = [np.array(x, copy=True) for x in rt]
+    below = before[0] < plan.rhocut
     for i in range(-1, nvj):
         with np.errstate(all="ignore"):
             try:
@@ -417,6 +419,22 @@ def _pw_nldfplan(case, rec, rng):
             p, dp = plan.get_interpolation_coefficients(np.ascontiguousarray(arg[0]), i=i)
         _finite(rec, "nldfplan.args", list(arg[:1]) + list(arg[1]), "NLDFPlan[%s].get_interpolation_arguments" % cfg["plan_type"])
         _finite(rec, "nldfplan.coefs", [p, dp], "NLDFPlan[%s].get_interpolation_coefficients" % cfg["plan_type"])
+    # all exponents of a plan are evaluated one after the other on ONE density tuple (theta first, then every feature
+    # parameter set - the order of the generators): below the plan's density cut-off every one of them must return zero
+    # derivatives, and the tuple (views of the caller's density) must come back untouched
+    for i in range(-1, nvj):
+        with np.errstate(all="ignore"):
+            try:
+                a_i, d_i = plan.eval_feat_exp(rt, i=i)
+            except RuntimeError as e:
+                rec.note("exponent_out_of_range", str(e)[:80])
+                continue
+        if below.any():
+            rec.require("exponent_derivative_zero_below_plan_cutoff", all(not np.any(np.asarray(d)[below]) for d in d_i),
+                        mechanism="NLDFPlan.eval_feat_exp[%s]:derivative-nonzero-below-rhocut" % ("theta" if i < 0 else "feature-set"),
+                        detail={"i": i, "n_below": int(below.sum())})
+    rec.require("density_tuple_unmodified", all(np.array_equal(x, y) for x, y in zip(rt, before)),
+                mechanism="NLDFPlan.eval_feat_exp:modifies-input")
     with np.errstate(all="ignore"):
         fn = plan.get_function_to_convolve(rt)
     _finite(rec, "nldfplan.func", [fn[0]] + list(fn[1]), "NLDFPlan.get_function_to_convolve")
